@@ -21,6 +21,9 @@
      nbases <h>   nzones <h> <B>   rzone <h> <B> <Z>   ncoords <h> <B> <Z>   rcoord <h> <B> <Z> <name>
      nsols <h> <B> <Z>   rfield <h> <B> <Z> <S> <name>   ndesc <h> <B>   rdesc <h> <B> <D>
      gopath <h> <path>   where   delete <h> <B> <name>   save <h> <id> <adf|hdf5> <follow>
+     fill <h> <B> <kind> <n>   create n children: zone pzone family desc user (of the base), sol grid discrete integral zuser (of
+                               zone 1), field (of solution 1 of zone 1)
+     drain <h> <B> <kind>      delete EVERY child of that kind (cg_delete_node by name)
      array <h> <B> <name> <DataType name> <n>      cg_array_write + cg_array_read_as under /Base/U (UserDefinedData_t)
      cycle <k>
 */
@@ -165,6 +168,63 @@ int main(int argc, char **argv)
                 if (!ier && !strcmp(nm, a)) { ier = cg_array_read_as(i, t2, buf); break; }
             }
             printf("array %d", ier); tail(0, 0);
+        }
+        else if (sscanf(line, "fill %d %d %1023s %d", &h, &B, a, &n) == 4) {
+            /* fill <h> <B> <kind> <n>: create n children of that kind (names <K><i>): zone pzone family desc user under the base;
+               sol grid discrete integral zuser under zone 1; field under zone 1 / solution 1 */
+            int i, idx; char nm[40]; cgsize_t size[9] = {2, 2, 2, 1, 1, 1, 0, 0, 0}, psize = 3; double v[8] = {0};
+            ier = 0;
+            for (i = 1; i <= n && !ier; i++) {
+                sprintf(nm, "%c%d", toupper((unsigned char)a[0]), i);
+                if (!strcmp(a, "zone")) ier = cg_zone_write(fns[h], B, nm, size, CGNS_ENUMV(Structured), &idx);
+                else if (!strcmp(a, "pzone")) ier = cg_particle_write(fns[h], B, nm, psize, &idx);
+                else if (!strcmp(a, "family")) ier = cg_family_write(fns[h], B, nm, &idx);
+                else if (!strcmp(a, "sol")) ier = cg_sol_write(fns[h], B, 1, nm, CGNS_ENUMV(Vertex), &idx);
+                else if (!strcmp(a, "grid")) ier = cg_grid_write(fns[h], B, 1, nm, &idx);
+                else if (!strcmp(a, "discrete")) ier = cg_discrete_write(fns[h], B, 1, nm, &idx);
+                else if (!strcmp(a, "field")) ier = cg_field_write(fns[h], B, 1, 1, CGNS_ENUMV(RealDouble), nm, v, &idx);
+                else if (!strcmp(a, "integral") || !strcmp(a, "zuser")) {
+                    ier = cg_goto(fns[h], B, "Zone_t", 1, "end"); if (!ier) ier = a[0] == 'i' ? cg_integral_write(nm) : cg_user_data_write(nm);
+                }
+                else { ier = cg_goto(fns[h], B, "end"); if (!ier) ier = !strcmp(a, "desc") ? cg_descriptor_write(nm, "text") : cg_user_data_write(nm); }
+            }
+            printf("fill %d", ier); tail(0, 0);
+        }
+        else if (sscanf(line, "drain %d %d %1023s", &h, &B, a) == 3) {
+            /* drain <h> <B> <kind>: cg_delete_node of EVERY child of that kind, by the number and the names the library reports */
+            int cnt = 0, i, under = 0; char (*names)[33] = NULL;
+            ier = 0;
+            if (!strcmp(a, "zone")) ier = cg_nzones(fns[h], B, &cnt);
+            else if (!strcmp(a, "pzone")) ier = cg_nparticle_zones(fns[h], B, &cnt);
+            else if (!strcmp(a, "family")) ier = cg_nfamilies(fns[h], B, &cnt);
+            else if (!strcmp(a, "sol")) { under = 1; ier = cg_nsols(fns[h], B, 1, &cnt); }
+            else if (!strcmp(a, "grid")) { under = 1; ier = cg_ngrids(fns[h], B, 1, &cnt); }
+            else if (!strcmp(a, "discrete")) { under = 1; ier = cg_ndiscrete(fns[h], B, 1, &cnt); }
+            else if (!strcmp(a, "field")) { under = 2; ier = cg_nfields(fns[h], B, 1, 1, &cnt); }
+            else if (!strcmp(a, "integral") || !strcmp(a, "zuser")) {
+                under = 1; ier = cg_goto(fns[h], B, "Zone_t", 1, "end"); if (!ier) ier = a[0] == 'i' ? cg_nintegrals(&cnt) : cg_nuser_data(&cnt);
+            }
+            else { ier = cg_goto(fns[h], B, "end"); if (!ier) ier = !strcmp(a, "desc") ? cg_ndescriptors(&cnt) : cg_nuser_data(&cnt); }
+            if (!ier && cnt > 0) names = (char (*)[33])calloc(cnt, 33);
+            for (i = 1; i <= cnt && !ier; i++) {
+                cgsize_t sz[9]; int x, y; char *text = NULL;
+                if (!strcmp(a, "sol")) { CGNS_ENUMT(GridLocation_t) loc; ier = cg_sol_info(fns[h], B, 1, i, names[i - 1], &loc); }
+                else if (!strcmp(a, "grid")) ier = cg_grid_read(fns[h], B, 1, i, names[i - 1]);
+                else if (!strcmp(a, "discrete")) ier = cg_discrete_read(fns[h], B, 1, i, names[i - 1]);
+                else if (!strcmp(a, "field")) { CGNS_ENUMT(DataType_t) dt; ier = cg_field_info(fns[h], B, 1, 1, i, &dt, names[i - 1]); }
+                else if (under) { ier = cg_goto(fns[h], B, "Zone_t", 1, "end"); if (!ier) ier = a[0] == 'i' ? cg_integral_read(i, names[i - 1]) : cg_user_data_read(i, names[i - 1]); }
+                else if (!strcmp(a, "zone")) ier = cg_zone_read(fns[h], B, i, names[i - 1], sz);
+                else if (!strcmp(a, "pzone")) ier = cg_particle_read(fns[h], B, i, names[i - 1], sz);
+                else if (!strcmp(a, "family")) ier = cg_family_read(fns[h], B, i, names[i - 1], &x, &y);
+                else if (!strcmp(a, "desc")) { ier = cg_goto(fns[h], B, "end"); if (!ier) ier = cg_descriptor_read(i, names[i - 1], &text); if (text) cg_free(text); }
+                else { ier = cg_goto(fns[h], B, "end"); if (!ier) ier = cg_user_data_read(i, names[i - 1]); }
+            }
+            for (i = 0; i < cnt && !ier; i++) {
+                ier = under == 2 ? cg_goto(fns[h], B, "Zone_t", 1, "FlowSolution_t", 1, "end") : under ? cg_goto(fns[h], B, "Zone_t", 1, "end") : cg_goto(fns[h], B, "end");
+                if (!ier) ier = cg_delete_node(names[i]);
+            }
+            free(names);
+            printf("drain %d %d", ier, cnt); tail(0, 0);
         }
         else if (sscanf(line, "nbases %d", &h) == 1) { ier = cg_nbases(fns[h], &n); printf("nbases %d %d", ier, ier ? 0 : n); tail(0, 0); }
         else if (sscanf(line, "nzones %d %d", &h, &B) == 2) { ier = cg_nzones(fns[h], B, &n); printf("nzones %d %d", ier, ier ? 0 : n); tail(0, 0); }
